@@ -275,4 +275,8 @@ var _ = shared.NewCounter
 // an expression cannot change a variable's value object in place.
 // (Not seen by the scan: (*value.Time).Set, whose field is a struct of package time.)
 //@ func (*Interpreter).ProcessExpression [C13]
+// The current frame - the local-variable map and the regex capture object - is replaced only by the two
+// call functions (and their deferred restores); the captures also by the `~` operator, which the property allows.
+//@   only-writers [C13] F:interpreter.Interpreter.localVars : ProcessSubroutine ProcessSubroutine$1 ProcessFunctionSubroutine ProcessFunctionSubroutine$1
+//@   only-writers [C13] F:interpreter/context.Context.RegexMatchedValues : ProcessSubroutine ProcessSubroutine$1 ProcessFunctionSubroutine ProcessFunctionSubroutine$1 Regex
 //@   only-writers [C13] F:interpreter/value. : Assign Addition Subtraction Multiplication Division Remainder BitwiseAND BitwiseOR BitwiseXOR LeftShift RightShift LeftRotate RightRotate LogicalAND LogicalOR UpdateHash Set Unset assignHeaderValue getDirectorConfig getDirectorConfigBackend setDirectorConfigProperty Increment Testing_inject_variable
